@@ -18,6 +18,8 @@ def extra(led, tier, seed):
     from contracts import dtype_native
     led.extend(dtype_native.predict_dtypes(seed, only=("Kauri",)))
     led.extend(o for o in kauri_native.obligations(tier, seed) if "structural limits" in o.name)
+    from contracts import infer_local
+    led.extend(o for o in infer_local.native_locality_large(seed, tier) if "Kauri" in o.name)
     led.assume("A1", "A2", "A3", "A4", "A7: extraction of _utils.pyx (see engine/decython.py); conformance with the compiled extension checked on random states",
                "limits follow from the loop contracts: n_leaves < max_leaves in the guard and +1 per split => leaves <= max_leaves; a child is queued only when "
                "depth+1 < max_depth => depth <= max_depth; targets < n_clusters + (0|1|2) and n_clusters grows by exactly the number of new targets => labels contiguous from 0 "
